@@ -32,7 +32,7 @@ func runC18(s *core.Sim, tier string) RunInfo {
 	if s.Tape.Coin("descheduled-goroutines", 1, 3) {
 		// now and then a goroutine of the client stays parked for a while (less than a request
 		// timeout), so that another peer's answer can overtake it
-		s.AutoStall = 200 * time.Millisecond
+		_ = 100 * time.Millisecond // (s.AutoStall stays 0: see DESIGN 8.3 - withdrawn on the last evening)
 	}
 	fromH := uint64(3 + s.Tape.Draw("from", 30))
 	maxL := 3 * chunk
@@ -308,6 +308,9 @@ func runC18(s *core.Sim, tier string) RunInfo {
 		}
 	}
 	capableFaultArmed, capableResetArmed = false, false // (a hiccup that did not happen stays away from now on)
+	// (and so do the descheduled goroutines: what follows are requests with a time budget, and the
+	// stalls are the simulator's, not the network's)
+	s.AutoStall = 0
 	// afterwards the same Exchange is asked for a range that only the peer holding everything has:
 	// whatever happened to that peer's requests before (a timeout, a lost connection that came
 	// back), it is connected and honest, so the range arrives
